@@ -54,8 +54,16 @@ def run(ctx, model):
         ci = model.cls(ESS, cname)
         f = ci.methods["__init__"]
         has_sign = "include_sign" in f.params
-        for start, (mind, maxd), sign, ext in itertools.product((0, 1, 7), ((1, None), (2, 4), (3, 3)),
-                                                                (False, True) if has_sign else (None,), (False, True)):
+        # fraction bounds: small ones, multi-digit ones, the regex engine's repeat limits, and the neighbours of every
+        # integer constant the constructor chain compares or computes with
+        from ..consts import call_closure, interesting_ints, around
+        chain = [c.methods["__init__"] for c in [ci] + list(ci.mro()) if "__init__" in c.methods]
+        special = [c for c in around(interesting_ints(chain, lo=2, hi=2 ** 40), lo=2) if c > 4]
+        bounds = [(1, None), (2, 4), (3, 3), (1, 10), (12, 100), (99, None)] + \
+                 [(1, c) for c in sorted(set(special + [65534, 65535, 65536, 10 ** 6, 2 ** 32 - 1]))]
+        combos = list(itertools.product((0, 1, 7), bounds[:3], (False, True) if has_sign else (None,), (False, True)))
+        combos += list(itertools.product((0, 7), bounds[3:], (False, True) if has_sign else (None,), (False, True)))
+        for start, (mind, maxd), sign, ext in combos:
             kw = {"start": start, "end": 99, "min_decimal": mind, "max_decimal": maxd, "is_extensible": ext}
             if has_sign:
                 kw["include_sign"] = sign
